@@ -17,6 +17,12 @@ CHECKS = {
    text="TLC explores every interleaving of operation starts, task executions, chunk reads and writes for small plans and shows NoBadRead; every recorded run of generated programs on single-threaded / threads / processes executors x options, with write latency injected inside the store, is judged by the monitor: a data chunk of a produced array is read only after its producer's operation-end, which comes after the return of every write. A missing barrier is an ordering fact in the trace, not a lucky race.",
    note="Trusted: TLC; CLOCK_MONOTONIC being system-wide (cross-process ordering of non-overlapping call/return intervals); the LocalStore wrapper seeing every store access (zarr LocalStore is the only store used locally). Bounds: plans <= 5 ops in the model; generated programs <= 6 steps in runs.",
    design_ref="DESIGN.md §5 C07, §4.9"),
+ "C01": dict(
+   engine="Tensor",
+   technique="TLA+ module Tensor.tla is the executable meaning of ~45 array functions on integer tensors; TLC evaluates every generated program with it and the cubed result under every chunking / executor / optimization setting must equal the TLA+ value (NumPy cross-checks the specification); functions outside the integer reference are judged by NumPy",
+   text="The reference semantics is independent of chunking, fusion and executors, which is what the property says results may not depend on. Programs (1-3 inputs, broadcasting, sharing, several requested arrays, <= 5-6 steps) are replayed under several regular chunkings of every input (random, all-ones, full, uneven last chunk, operands chunked differently), optimize_graph on/off, single-threaded / threads / processes. A declined expression is fine; a different value or shape is a violation.",
+   note="Trusted: TLC as evaluator; NumPy for float/opaque operators (mean, nan-functions, qr up to sign, searchsorted, pad, isin, take, map_overlap...). Bounds: tensors <= 64 elements in the TLA+ part, <= 3000 elements otherwise; 0-3 dims.",
+   design_ref="DESIGN.md §5 C01, §4.1"),
  "C02": dict(
    engine="Optimize+OptTrace",
    technique="TLA+ spec Optimize.tla (fusion eligibility, DAG rewrite, source ordering) model-checked by TLC over DAG shapes x projections x budgets x requested/forced sets; real pre/post DAGs of every optimizer setting validated by the TLA+ monitor OptTrace.tla; optimized values replayed against the unoptimized run and NumPy",
